@@ -27,7 +27,14 @@
 //    text, or NULL) x format description (round-4 generator) x limits string (flag letters, refused characters, "", NULL).
 //    O: error return => the target's children are the same nodes with the same content; success => the children are the tree
 //    mpt_parse_node makes of the same text with the same format and flags; verdicts agree; old children released once (ASan/leak).
+//
+// Character sources (first case byte 0x80..0x87): one generated text with bytes >= 0x80 (UTF-8, stray 0x80/0xFE/0xFF) through the harness
+//    callback, mpt_getchar_stdio (memory stream / tmpfile), mpt_getchar_file (pipe / memfd / descriptor of a temporary file) and, with
+//    its name flags, mpt::config_parser. O: same return code and element sequence (C++: same verdict and tree) from every source;
+//    on success nothing of the input is left unread.
 #include <dirent.h>
+#include <fcntl.h>
+#include <sys/mman.h>
 #include <signal.h>
 #include <unistd.h>
 
@@ -703,6 +710,180 @@ struct CDoc {  // a document and what the C entry point makes of it
   std::vector<Node> tree;
 };
 
+// ---- character sources: the same text through every source the library offers
+//
+// harness callback (reference), mpt_getchar_stdio over a FILE, mpt_getchar_file over a descriptor (pipe, memfd, temporary
+// file), and - when the name flags are those of mpt::config_parser - the C++ parser on a file. The text carries bytes >= 0x80
+// (UTF-8 sequences, stray 0x80 / 0xFE / 0xFF) in values, comments and, where the Binary name flag allows, in names.
+struct Fd {
+  int fd = -1;
+  ~Fd() { if (fd >= 0) close(fd); }
+  Fd() {}
+  Fd(const Fd &) = delete;
+};
+static int events_from(int (*getc)(void *), void *arg, const parser_format *pf, int family, Flags fl, Recorder &rec) {
+  input_parser_t fn = mpt_parse_next_fcn(family);
+  CObj<parser_context> pc;
+  pc->src.getc = getc;
+  pc->src.arg = arg;
+  pc->src.line = 1;
+  pc->name.sect = fl.sect;
+  pc->name.opt = fl.opt;
+  pc->prev = (uint8_t)parser_context::Section;
+  CObj<parser_format> copy;
+  memcpy(copy.get(), pf, sizeof *pf);
+  return mpt_parse_config(fn, copy.get(), pc, Recorder::save, &rec);
+}
+static void same_events(Ctx &c, const char *what, int r_ref, const Recorder &ref, int r, const Recorder &got) {
+  c.logf("  %s: mpt_parse_config=%d, %zu elements", what, r, got.ev.size());
+  VP_CHECK(c, r == r_ref && got.ev.size() == ref.ev.size(), "source-differs", "%s: result %d with %zu elements, the callback source gives %d with %zu elements for the same text", what, r, got.ev.size(), r_ref, ref.ev.size());
+  for (size_t i = 0; i < ref.ev.size(); i++) {
+    const Event &a = got.ev[i], &b = ref.ev[i];
+    VP_CHECK(c, a.curr == b.curr && a.path == b.path && a.has_val == b.has_val && a.val == b.val, "source-differs",
+             "%s, element %zu: code %x path '%s' value '%s'; the callback source gives code %x path '%s' value '%s'", what, i + 1,
+             a.curr, brief(a.path, 40).c_str(), brief(a.val, 40).c_str(), b.curr, brief(b.path, 40).c_str(), brief(b.val, 40).c_str());
+  }
+}
+
+static void run_sources(Ctx &c) {
+  c.label("entry: character sources");
+  static const int fam[] = {'*', 'x', ' ', '_'};
+  size_t fsel = c.weighted({3, 2, 3});
+  Fmt f;
+  if (fsel == 0) { f.null_text = true; decode(f); }
+  else if (fsel == 1) { f.text = "{*} =;#! '\""; decode(f); }
+  else f = draw_fmt(c, fam[c.weighted({6, 2, 2, 1})]);
+  bool cxx_flags = c.chance(100);
+  Flags fl;
+  if (cxx_flags) { fl.sect = NumCont | Space | Special; fl.opt = NumCont; }  // what mpt::config_parser uses
+  else { fl = draw_flags(c); if (c.flip()) { fl.sect |= Binary; fl.opt |= Binary; } }
+  std::vector<uint8_t> deco = deco_bytes(c), mut, hb = c.bytes(c.range(0, 10));
+  if (c.chance(70)) mut = c.bytes(c.range(1, 6));
+  size_t fdkind = c.weighted({4, 4, 1});
+  c.logf("entry: character sources, %s", show(f).c_str());
+  c.logf("%s", show(fl).c_str());
+  GenLimits lim;
+  lim.max_nodes = 16;
+  lim.huge_values = false;
+  lim.max_value = 300;
+  TreeGen g(c, f, fl, lim);
+  std::vector<Node> t = g.tree();
+  make_expressible(t, f);
+  Ctx dc(deco.data(), deco.size(), false);
+  Printer pr(dc, f, !deco.empty());
+  std::string doc = pr.render(t);
+  Ctx mc(mut.data(), mut.size(), false);
+  size_t nm = mut.empty() ? 0 : 1 + mc.weighted({5, 3, 1});
+  for (size_t k = 0; k < nm; k++) mutate(c, mc, doc, f, false);
+  // high bytes anywhere in the text (names, values, comments, between elements)
+  static const char *const tok[] = {"\xc3\xa4", "\xe2\x82\xac", "\xfe", "\xff", "\x80", "\xf0\x9f\x98\x80", "\xc2\xa0", "\xfe\xff"};
+  for (size_t i = 0; i + 1 < hb.size(); i += 2) doc.insert(hb[i + 1] % (doc.size() + 1), tok[hb[i] % 8]);
+  size_t high = 0;
+  for (unsigned char ch : doc) if (ch >= 0x80) ++high;
+  c.logf("text (%zu bytes, %zu of them >= 0x80): %s", doc.size(), high, brief(doc, 1000).c_str());
+  if (high) c.label("text:high-bytes");
+  if (doc.find('\xfe') != std::string::npos || doc.find('\xff') != std::string::npos) c.label("text:0xFE/0xFF");
+
+  CObj<parser_format> pf;
+  int family = mpt_parse_format(pf, f.cstr());
+  // reference: harness callback
+  Recorder ref;
+  Source src(doc);
+  int r_ref = events_from(Source::getc, &src, pf, family, fl, ref);
+  c.logf("  callback source: mpt_parse_config=%d, %zu elements, %zu getc calls", r_ref, ref.ev.size(), src.calls);
+  check_getc(c, src, false);
+  // "reading each input character at most once": a stream cannot repeat; on success nothing is left unread
+  VP_CHECK(c, r_ref < 0 || src.pos == src.n, "input-not-consumed", "callback source: success after %zu of %zu bytes", src.pos, src.n);
+  size_t maxdepth = 0;
+  if (r_ref >= 0) check_events(c, ref.ev, maxdepth);
+
+  // mpt_getchar_stdio over a FILE
+  {
+    TextFile tf(doc, !c.chance(16));
+    VP_CHECK(c, tf.f, "harness", "cannot open a stream over the text");
+    Recorder rec;
+    int r = events_from((int (*)(void *))mpt_getchar_stdio, tf.f, pf, family, fl, rec);
+    same_events(c, tf.memstream ? "mpt_getchar_stdio(memory stream)" : "mpt_getchar_stdio(tmpfile)", r_ref, ref, r, rec);
+    if (r >= 0) VP_CHECK(c, fgetc(tf.f) == EOF, "input-not-consumed", "mpt_getchar_stdio: success with input left in the stream");
+  }
+  // mpt_getchar_file over a descriptor
+  {
+    Fd fd, wr;
+    const char *kind = "pipe";
+    if (fdkind == 0 && doc.size() < 60000) {
+      int p[2];
+      VP_CHECK(c, pipe(p) == 0, "harness", "pipe");
+      fd.fd = p[0];
+      wr.fd = p[1];
+      VP_CHECK(c, doc.empty() || write(wr.fd, doc.data(), doc.size()) == (ssize_t)doc.size(), "harness", "pipe write");
+      close(wr.fd);
+      wr.fd = -1;
+    } else if (fdkind != 2) {
+      kind = "memfd";
+      fd.fd = memfd_create("c08", 0);
+      VP_CHECK(c, fd.fd >= 0 && (doc.empty() || write(fd.fd, doc.data(), doc.size()) == (ssize_t)doc.size()) && lseek(fd.fd, 0, SEEK_SET) == 0, "harness", "memfd");
+    } else {
+      kind = "temporary file";
+      FILE *tf = tmpfile();
+      VP_CHECK(c, tf, "harness", "tmpfile");
+      fd.fd = dup(fileno(tf));
+      fclose(tf);
+      VP_CHECK(c, fd.fd >= 0 && (doc.empty() || write(fd.fd, doc.data(), doc.size()) == (ssize_t)doc.size()) && lseek(fd.fd, 0, SEEK_SET) == 0, "harness", "temporary file");
+    }
+    Recorder rec;
+    int r = events_from(mpt_getchar_file, (void *)(intptr_t)fd.fd, pf, family, fl, rec);
+    char what[64];
+    snprintf(what, sizeof what, "mpt_getchar_file(%s)", kind);
+    same_events(c, what, r_ref, ref, r, rec);
+    char rest;
+    if (r >= 0) VP_CHECK(c, read(fd.fd, &rest, 1) == 0, "input-not-consumed", "mpt_getchar_file: success with input left behind the descriptor position");
+    c.label(fdkind == 0 ? "source:pipe" : fdkind == 1 ? "source:memfd" : "source:fd-of-tmpfile");
+  }
+  // the C++ parser (its name flags cannot be chosen)
+  if (cxx_flags) {
+    sweep_stale_files();
+    int rc;
+    std::vector<Node> want, got;
+    {
+      Source s2(doc);
+      CObj<parser_context> pc;
+      s2.bind(pc);
+      pc->name.sect = fl.sect;
+      pc->name.opt = fl.opt;
+      Root root;
+      rc = mpt_parse_node(root.get(), pc, f.cstr());
+      if (rc >= 0) read_list(root.get()->children, want);
+    }
+    TmpFile file("a");
+    VP_CHECK(c, file.write(doc), "harness", "cannot write %s", file.name.c_str());
+    mpt::config_parser parse;
+    if (fsel) VP_CHECK(c, parse.set_format(f.cstr()), "cxx-set-format", "config_parser::set_format refused a format of a supported family");
+    VP_CHECK(c, parse.open(file.name.c_str()), "cxx-open", "config_parser::open failed on an existing file");
+    mpt::node to;
+    int r = parse.read(to, 0);
+    read_list(to.children, got);
+    c.logf("  mpt::config_parser: read=%d, %zu nodes (mpt_parse_node with the callback source: %d, %zu nodes)", r, count_nodes(got), rc, count_nodes(want));
+    VP_CHECK(c, (r < 0) == (rc < 0), "source-differs", "mpt::config_parser::read=%d, mpt_parse_node with the callback source=%d for the same text", r, rc);
+    if (r >= 0) { std::string d = diff(want, got); VP_CHECK(c, d.empty(), "source-differs", "mpt::config_parser delivers another tree than mpt_parse_node with the callback source: %s", d.c_str()); }
+    c.label("source:c++-parser");
+  }
+  c.label(r_ref >= 0 ? "config:accepted" : "config:rejected");
+  if (high && ref.ev.size() >= 2) c.nontrivial();
+}
+
+// what the C entry point makes of a document under a format description and the name flags of mpt::config_parser
+static void c_reference(CDoc &d, const char *desc) {
+  Source src(d.text);
+  CObj<parser_context> pc;
+  src.bind(pc);
+  pc->name.sect = NumCont | Space | Special;
+  pc->name.opt = NumCont;
+  Root root;
+  d.tree.clear();
+  d.rc = mpt_parse_node(root.get(), pc, desc);
+  if (d.rc >= 0) read_list(root.get()->children, d.tree);
+}
+
 static void run_cxx(Ctx &c) {
   c.label("entry: mpt::config_parser");
   sweep_stale_files();
@@ -724,6 +905,27 @@ static void run_cxx(Ctx &c) {
   // operation sequence, set aside before the documents use up the case bytes
   std::vector<uint8_t> opb = c.bytes(c.range(2, 14));
   Ctx oc(opb.data(), opb.size(), false);
+  // set_format() between the reads: operation bytes with bits 5 and 6 set (the descriptions are drawn only when such a byte
+  // exists, so every older case decodes as before)
+  struct Desc { std::string text; bool is_null; };
+  std::vector<Desc> fdesc;
+  for (uint8_t ob : opb) {
+    if ((ob & 0x60) != 0x60 || fdesc.size() >= 4) continue;
+    Desc d{"", false};
+    switch (c.weighted({4, 4, 1, 1, 1})) {
+      case 1: {  // fine layout, unsupported type character
+        d.text = f.null_text ? "{*} = " : f.text;
+        if (d.text.size() < 2) d.text = "{*} = ";
+        d.text[1] = "+q-X.0"[c.pick(6)];
+        break;
+      }
+      case 2: d.text = "{*} =;#! '\""; break;
+      case 3: d.is_null = true; break;
+      case 4: d.text = f.null_text ? "{*} = " : f.text; break;
+      default: d.text = draw_description(c, d.is_null); break;
+    }
+    fdesc.push_back(d);
+  }
   // two documents for that format (mutated now and then, so that reads fail as well)
   std::vector<uint8_t> deco[2] = {deco_bytes(c), deco_bytes(c)};
   std::vector<uint8_t> mut[2];
@@ -745,22 +947,20 @@ static void run_cxx(Ctx &c) {
     size_t nm = mut[i].empty() ? 0 : 1 + mc.weighted({5, 3, 1});
     for (size_t k = 0; k < nm; k++) mutate(c, mc, doc[i].text, f, false);
     // reference: the C entry point on the same bytes, format and flags
-    {
-      Source src(doc[i].text);
-      CObj<parser_context> pc;
-      src.bind(pc);
-      pc->name.sect = fl.sect;
-      pc->name.opt = fl.opt;
-      Root root;
-      doc[i].rc = mpt_parse_node(root.get(), pc, f.cstr());
-      if (doc[i].rc >= 0) read_list(root.get()->children, doc[i].tree);
-    }
+    c_reference(doc[i], f.null_text ? 0 : f.text.c_str());
     c.logf("file %c (%zu bytes, mpt_parse_node=%d, %zu nodes): %s", 'A' + i, doc[i].text.size(), doc[i].rc, count_nodes(doc[i].tree), brief(doc[i].text, 800).c_str());
     VP_CHECK(c, file[i].write(doc[i].text), "harness", "cannot write %s", file[i].name.c_str());
   }
 
-  mpt::config_parser parse;
-  if (fsel) VP_CHECK(c, parse.set_format(f.cstr()), "cxx-set-format", "config_parser::set_format refused a format of a supported family");
+  CDoc empty;
+  c_reference(empty, f.null_text ? 0 : f.text.c_str());
+  // 'twin' gets every call except the set_format() calls that are refused: both must answer every read alike
+  // (only kept when the case has set_format() calls)
+  bool use_twin = !fdesc.empty();
+  mpt::config_parser parse, twin;
+  if (fsel) VP_CHECK(c, parse.set_format(f.cstr()) && (!use_twin || twin.set_format(f.cstr())), "cxx-set-format", "config_parser::set_format refused a format of a supported family");
+  mpt::node twin_to[2];
+  size_t nfmt = 0, refused = 0;
   mpt::node to[2];
   std::vector<Node> have[2];
   int cur = -1;        // file the parser reads from
@@ -770,6 +970,23 @@ static void run_cxx(Ctx &c) {
   for (bool first = true; first || !oc.exhausted(); first = false, ++nops) {
     uint8_t ob = first ? 0 : oc.u8();  // low bits: operation, bit 7: target node of a read
     size_t op = first ? 2 : (size_t[]){0, 0, 0, 0, 0, 1, 1, 1, 2, 3, 4, 0, 1, 0, 1, 0}[ob & 15];
+    if (!first && (ob & 0x60) == 0x60 && nfmt < fdesc.size()) {
+      const Desc &d = fdesc[nfmt++];
+      RefFormat rf = ref_format(d.is_null ? 0 : &d.text);
+      bool supported = mpt_parse_next_fcn(rf.family) != 0;
+      ExactStr dc(d.text, d.is_null);
+      bool ok = parse.set_format(dc.p);
+      c.logf("  set_format(%s%s%s) = %d   [type character %02x is %s]", d.is_null ? "NULL" : "\"", d.is_null ? "" : brief(d.text, 40).c_str(), d.is_null ? "" : "\"", ok, rf.family, supported ? "supported" : "not supported");
+      VP_CHECK(c, ok == supported, "cxx-set-format", "config_parser::set_format(\"%s\") = %d, the type character %02x is %s", brief(d.text, 40).c_str(), ok, rf.family, supported ? "supported" : "not supported");
+      if (ok) {
+        // accepted: from now on like a parser that was given this format
+        VP_CHECK(c, twin.set_format(dc.p), "cxx-set-format", "config_parser::set_format accepted the description once and refused it the second time");
+        for (int i = 0; i < 2; i++) c_reference(doc[i], dc.p);
+        c_reference(empty, dc.p);
+        c.label("cxx:set_format-accepted");
+      } else { ++refused; c.label("cxx:set_format-refused"); }
+      continue;
+    }
     if (op == 0 && cur >= 0) {
       int k = ob >> 7;
       std::vector<const node *> before, after;
@@ -777,6 +994,14 @@ static void run_cxx(Ctx &c) {
       int r = parse.read(to[k], 0);
       std::vector<Node> got;
       read_list(to[k].children, got, &after);
+      if (use_twin) {
+        // the twin never saw a refused set_format(): same answer to the same read
+        int rt = twin.read(twin_to[k], 0);
+        std::vector<Node> tgot;
+        read_list(twin_to[k].children, tgot);
+        std::string d = diff(tgot, got);
+        VP_CHECK(c, r == rt && d.empty(), "cxx-twin-differs", "read = %d after %zu refused set_format() calls, a parser that got the same calls without them reads %d%s%s", r, refused, rt, d.empty() ? "" : "; trees differ: ", d.c_str());
+      }
       c.logf("  read(target %d) = %d   [file %c, %s]", k, r, 'A' + cur, fresh ? "from the start" : at_end ? "behind a complete read" : "behind a failed read");
       std::string w = walk(&to[k]);
       VP_CHECK(c, w.empty(), "tree-links", "config_parser::read=%d, target tree: %s", r, w.c_str());
@@ -792,7 +1017,9 @@ static void run_cxx(Ctx &c) {
           if (!got.empty()) ++fresh_ok;
         }
       } else if (at_end) {
-        VP_CHECK(c, r >= 0 && got.empty(), "cxx-read-at-end", "read behind a complete read: config_parser::read=%d, %zu nodes delivered", r, count_nodes(got));
+        // the stream is at its end: like the empty input under the format in use (success and nothing delivered, except
+        // for the 'x' family with different start and end characters, which answers the end of input with an error)
+        VP_CHECK(c, (r < 0) == (empty.rc < 0) && (r < 0 || got.empty()), "cxx-read-at-end", "read behind a complete read: config_parser::read=%d, %zu nodes delivered; mpt_parse_node on the empty input: %d", r, count_nodes(got), empty.rc);
       }
       if (r >= 0) have[k] = got;
       at_end = r >= 0;
@@ -800,6 +1027,7 @@ static void run_cxx(Ctx &c) {
       c.label(r >= 0 ? "cxx:read-ok" : "cxx:read-failed");
     } else if (op == 1 && cur >= 0) {
       bool ok = parse.reset();
+      if (use_twin) twin.reset();
       c.logf("  reset() = %d", ok);
       VP_CHECK(c, ok, "cxx-reset", "config_parser::reset failed on an existing file");
       fresh = true;
@@ -807,12 +1035,14 @@ static void run_cxx(Ctx &c) {
       c.label("cxx:reset");
     } else if (op == 4) {
       bool ok = parse.open("c08-no-such-file.conf");
+      if (use_twin) twin.open("c08-no-such-file.conf");
       c.logf("  open(missing file) = %d", ok);
       VP_CHECK(c, !ok, "cxx-open", "config_parser::open reports success for a missing file");
       c.label("cxx:open-missing");
     } else {
       int k = op == 3 ? 1 : 0;
       bool ok = parse.open(file[k].name.c_str());
+      if (use_twin) twin.open(file[k].name.c_str());
       c.logf("  open(file %c) = %d", 'A' + k, ok);
       VP_CHECK(c, ok, "cxx-open", "config_parser::open failed on an existing file");
       cur = k;
@@ -831,6 +1061,7 @@ static void run(Ctx &c) {
   if (sel >= 0x60 && sel < 0x80) { run_cxx(c); return; }
   if (sel >= 0x40 && sel < 0x60) { run_format(c); return; }
   if (sel >= 0x20 && sel < 0x40) { run_node_parse(c); return; }
+  if (sel >= 0x80 && sel < 0x88) { run_sources(c); return; }
   bool sane = !(sel >= 156);  // (was c.chance(100): same byte, same meaning)
   static const int fam[] = {'*', 'x', ' ', '_'};
   int family = fam[c.weighted({6, 2, 2, 1})];
@@ -933,7 +1164,8 @@ static Target t = {
     "short; NULL) through mpt_parse_format against an independent reading, then a generated text parsed with the described format and with the same delimiters set directly; "
     "non-trivial: full description and >= 2 elements delivered. mpt_node_parse (1 case in 8): target with/without children x FILE (memory stream/tmpfile over generated, mutated or token-soup "
     "text, or NULL) x drawn format description x limits string (flag letters, refused characters, white space, empty, NULL), differential against mpt_parse_node; non-trivial: the target had "
-    "children. Distinct by hash of the draw sequence.",
+    "children. Character sources (1 case in 32): one text with UTF-8 and stray high bytes through callback / mpt_getchar_stdio / mpt_getchar_file (pipe, memfd, tmpfile fd) / "
+    "mpt::config_parser, all must agree; non-trivial: high bytes present and >= 2 elements. Distinct by hash of the draw sequence.",
     run,
     {2500, 6000},
     false,
